@@ -398,9 +398,11 @@ class C20(Check):
         per_mode = [noneq(c) for c in cos]
         # demanded only when EVERY mode is non-equivalent: then every method (min_score included, and 'stacked' however the
         # blocks are weighted, since collinear stacked columns are collinear block by block) must report a positive score
-        nonequiv = {m: all(per_mode) for m in METHODS}
+        # ... and when only SOME modes are equivalent: 'min_score' may be 0, but 'max_score', 'avg_score' (a maximum / mean of per-mode
+        # scores of which one is positive) and 'stacked' (a stacked column has a collinear partner only if every block has) are positive
+        nonequiv = {m: (all(per_mode) if m == "min_score" else any(per_mode)) for m in METHODS}
         if not all(per_mode):
-            ctx.count("guarded_out:pair-has-equivalent-mode")
+            ctx.count("pair-has-equivalent-mode:min_score-not-demanded")
         self._check_corrindex(ctx, A, B, label, nonequiv=nonequiv)
         if len(ctx.samples) < 2 and R >= 3 and n >= 2:
             ctx.sample({"case": case, "best": best, "n_matchings": len(means), "greedy": g})
